@@ -133,7 +133,63 @@ def deep_use():
     return bad
 
 
+SUBMOD = {
+    "src/c_mod.f90": "module c_mod\n  implicit none\n  type :: t_c\n    integer :: c\n  end type t_c\ncontains\n  subroutine p_c()\n  end subroutine p_c\nend module c_mod\n",
+    "src/r_mod.f90": "module r_mod\n  use c_mod\n  implicit none\nend module r_mod\n",
+    "src/a_mod.f90": "module a_mod\n  implicit none\n  interface\n    module subroutine work()\n    end subroutine work\n  end interface\nend module a_mod\n",
+    "src/a_sub.f90": ("submodule (a_mod) a_sub\n  use r_mod\n  implicit none\ncontains\n  module subroutine work()\n    type(t_c) :: v\n    call p_c()\n  end subroutine work\n"
+                      "  subroutine helper()\n    use r_mod\n    type(t_c) :: w\n  end subroutine helper\nend submodule a_sub\n"),
+}
+
+
+def submodule_use():
+    """a submodule that uses a re-exporting module which sorts after it by name: its own USE statements must order its correlation like a module's"""
+    proj = realrun.build_project(SUBMOD, display=["public", "private", "protected"], proc_internals=True)
+    sub = proj.submodules[0]
+    c = [m for m in proj.modules if m.name.lower() == "c_mod"][0]
+    bad = []
+    if sub.all_types.get("t_c") is not c.all_types.get("t_c"):
+        bad.append("submodule a_sub uses r_mod, which re-exports c_mod: t_c is not visible in a_sub")
+    if sub.all_procs.get("p_c") is not c.all_procs.get("p_c"):
+        bad.append("... p_c is not visible in a_sub")
+    for proc in list(getattr(sub, "modsubroutines", [])) + list(sub.subroutines):
+        for v in proc.variables:
+            if v.proto and isinstance(v.proto[0], str):
+                bad.append(f"type(t_c) :: {v.name} in a_sub::{proc.name} stays unresolved text")
+    return bad
+
+
+OPER = {
+    "src/m.f90": ("module m\n  implicit none\n  interface operator(.plus.)\n    module procedure addi\n  end interface\n  interface assignment(=)\n    module procedure asg\n  end interface\n"
+                  "contains\n  function addi(a, b)\n    integer, intent(in) :: a, b\n    integer :: addi\n    addi = a + b\n  end function addi\n"
+                  "  subroutine asg(a, b)\n    integer, intent(out) :: a\n    logical, intent(in) :: b\n    a = 0\n  end subroutine asg\nend module m\n"),
+    "src/u.f90": "module u\n  use m, only: operator (.plus.), assignment ( = )\n  implicit none\nend module u\n",
+    "src/v.f90": "module v\n  use m, only: operator(.plus.), assignment(=)\n  implicit none\nend module v\n",
+}
+
+
+def operator_blanks():
+    """generic identifiers in an ONLY list are the same name however the blanks are placed: `operator (.plus.)` = `operator(.plus.)`"""
+    proj = realrun.build_project(OPER, display=["public", "private", "protected"])
+    mods = {m.name.lower(): m for m in proj.modules}
+    want = {k for k in mods["m"].all_procs if k.startswith(("operator", "assignment"))}
+    bad = []
+    for n in ("u", "v"):
+        got = {k for k in mods[n].all_procs if k.startswith(("operator", "assignment"))}
+        if got != want:
+            bad.append(f"module {n}: imports {sorted(got)}, the ONLY list names {sorted(want)}")
+    return bad
+
+
 def search():
+    bad = operator_blanks()
+    if bad:
+        return {"confirmed": True, "input": {"files": OPER}, "actual": bad, "expected": "both spellings of the ONLY list import the two generic interfaces",
+                "how": "bounded search on the real pipeline: ONLY lists naming operator / assignment generics with and without blanks"}
+    bad = submodule_use()
+    if bad:
+        return {"confirmed": True, "input": {"files": SUBMOD}, "actual": bad, "expected": "USE association in a submodule through a re-exporting module",
+                "how": "bounded search on the real pipeline: c_mod <- r_mod <- submodule a_sub of a_mod (a_sub sorts before r_mod)"}
     bad = deep_use()
     if bad:
         return {"confirmed": True, "input": {"files": DEEP}, "actual": bad, "expected": "USE association through a re-exporting module, wherever the USE statement is nested",
